@@ -159,8 +159,8 @@ class BooleanOptionalAction(argparse.Action):
         if values is None:  # --my_flag / --nomy_flag
             bool_value = not used_negative_flag
         elif used_negative_flag:  # Cannot set `--nomy_flag=True/False`
-            parser.exit(
-                message=f"Negative flags cannot be passed a value (Got: {option_string}={values})"
+            parser.error(
+                f"Negative flags cannot be passed a value (Got: {option_string}={values})"
             )
         elif isinstance(values, bool):
             bool_value = values
